@@ -233,6 +233,9 @@ func (g *CondGen) pathTo(t string) *Operand {
 		}
 	}
 	for _, kv := range g.item {
+		if len(kv.K) > 0 && kv.K[0] == ':' {
+			continue // attributes named like value placeholders are bystanders only (see DESIGN, limits)
+		}
 		walk(kv.K, nil, kv.V, 0)
 	}
 	if len(below) > 0 && g.r.Chance(12) {
